@@ -212,6 +212,7 @@ type realLog struct {
 	FileSize []int // bytes per file, oldest first (head last)
 	FileName []string
 	Bounds   []int // cell offsets of the file ends (without the head), as the model counts them
+	MidRot   int   // records written with the group rotating between two Group.Write calls of their Encode
 	byLoad   map[string]int
 }
 
@@ -239,6 +240,7 @@ func (rl *realLog) cellAt(b int) (cell, rec int) {
 type writerVariant struct {
 	FlushOnRotate bool
 	TornTailIsEOF bool
+	Cuts          string // the model's EncodeCuts, "6" = {6}: cells after which WALEncoder.Encode ends a Group.Write call ("" = one call per record)
 }
 
 // realise executes the writer actions of one model behaviour on the real WAL in dir
@@ -278,10 +280,24 @@ func realise(dir string, recs []int, hist []histAct, in *instance, variant write
 			rl.Kind = append(rl.Kind, kindNames[in.Kinds[i]])
 		}
 	}
+	steps, err := compileHist(hist)
+	if err != nil {
+		return nil, err
+	}
+	if gwMode == bindHook {
+		// cmn.VerifPointHook is process-wide: a realisation that installs it runs alone
+		if hasMidRotation(hist) {
+			hookMu.Lock()
+			defer hookMu.Unlock()
+		} else {
+			hookMu.RLock()
+			defer hookMu.RUnlock()
+		}
+	}
 	ri := 0
 	buffered := 0 // bytes in Group.headBuf
-	for ai := 0; ai < len(hist); ai++ {
-		a := hist[ai]
+	for ai := 0; ai < len(steps); ai++ {
+		a := steps[ai]
 		switch a.Op {
 		case "open":
 			nw, err := cs.NewWAL(path)
@@ -297,7 +313,7 @@ func realise(dir string, recs []int, hist []histAct, in *instance, variant write
 			}
 			buffered = 0
 		case "write":
-			if ai+1 < len(hist) && hist[ai+1].Op == "write" && hist[ai+1].S != 0 {
+			if ai+1 < len(steps) && steps[ai+1].Op == "write" && steps[ai+1].S != 0 {
 				// the next record is to be split after SplitK bytes: make this one fill the buffer up to there
 				want := headBufSize - in.SplitK[ri+1] - buffered
 				f, ok := fillerOfRecSize(want, ri, in.height(1)+uint64(ri), in.Seed, time.Now())
@@ -307,11 +323,28 @@ func realise(dir string, recs []int, hist []histAct, in *instance, variant write
 				msgs[ri] = f
 				rl.Kind[ri] = "block-part-filler"
 			}
-			if in.Sync[ri] && a.S == 0 && ai+1 < len(hist) && hist[ai+1].Op == "flush" {
+			sync := in.Sync[ri] && a.S == 0 && ai+1 < len(steps) && steps[ai+1].Op == "flush"
+			switch {
+			case len(a.RotAt) > 0:
+				// the group rotates between two Group.Write calls of this record's Encode
+				rot, calls, lastBytes, err := planRotations(msgs[ri], a.RotAt, int(in.Seed)+ri)
+				if err != nil {
+					return nil, err
+				}
+				if err := writeRotating(w, msgs[ri], sync, rot, calls); err != nil {
+					return nil, err
+				}
+				rl.MidRot++
+				buffered = recSizeAt(msgs[ri], time.Now()) - lastBytes // (RotateFile flushed what had been handed over)
+				if sync {
+					ai++
+					buffered = 0
+				}
+			case sync:
 				w.WriteSync(msgs[ri]) // = Write ; Group.Flush
 				ai++
 				buffered = 0
-			} else {
+			default:
 				w.Write(msgs[ri])
 				sz := recSizeAt(msgs[ri], time.Now())
 				if a.S != 0 {
@@ -334,6 +367,8 @@ func realise(dir string, recs []int, hist []histAct, in *instance, variant write
 		case "close":
 			closeWAL()
 			buffered = 0
+		default:
+			return nil, fmt.Errorf("history: unknown writer action %q", a.Op)
 		}
 	}
 	closeWAL()
